@@ -12,6 +12,7 @@ import (
 	_ "verifharness/props/c09"
 	_ "verifharness/props/c10"
 	_ "verifharness/props/c11"
+	_ "verifharness/props/c12"
 	_ "verifharness/props/c13"
 	_ "verifharness/props/c15"
 	_ "verifharness/props/c16"
